@@ -92,6 +92,8 @@ Proof.
       apply mem_z_in, in_map_iff in E2. destruct E2 as [y [Ey Hy]]. apply filter_In in Hy. destruct Hy as [_ Hy]. rewrite Ey in Hy. congruence.
   - (* ResetFlood *)
     simpl in Hsafe. unfold reset. rewrite Hsafe. destruct (limit <=? 0); simpl; reflexivity.
+  - (* a refused append leaves every table as it was and logs nothing *)
+    destruct f; simpl; try reflexivity. destruct (fst (fst (goc c s metric key now))); reflexivity.
 Qed.
 
 Lemma tables_idem s : tables (tables s) = tables s.
